@@ -26,6 +26,7 @@ def check(ctx):
         from sa.loader import AnalysisError
         raise AnalysisError('load.process_resources: pair loop not found')
     C13.driven_to_end(ctx, pr_, zl_[0], [n for n in all_ if n is not zl_[0]])
+    C13.source_asked_first(ctx, ld_)
     errors.r14_stopiteration_drivers(ctx)
     run.rule('R15', 'COMMIT-ORDER: commit points (checkpoint rename, dump descriptor, zip finalisation) come after the loop '
                     'over all resource streams on the normal path and are never reachable from an except / finally block')
